@@ -217,7 +217,8 @@ pub fn run(o: &Opts) -> i32 {
         } else {
             bytes::gen_w1(rng, 96 * 1024)
         };
-        check_payload(l, rng, &data, false, 4);
+        let data = if bytes::tiny() { data[..data.len().min(420)].to_vec() } else { data };
+        check_payload(l, rng, &data, false, if bytes::tiny() { 1 } else { 4 });
     }));
     // payload sizes around the 32 KiB buffer of hash_stream
     streams.push(
